@@ -2,5 +2,6 @@ SPECIFICATION Spec
 CONSTANTS
   N = 4
   Depth = 1
+  Sim = FALSE
 INVARIANTS Emit FrameOK TypeOK
 CHECK_DEADLOCK FALSE
